@@ -882,6 +882,31 @@ struct LabelValue<'a> {
     first: bool,
 }
 
+/// Displays a label value with backslash, quote, and line feed escaped.
+struct LabelEscape<T>(T);
+
+impl<T: fmt::Display> fmt::Display for LabelEscape<T> {
+    fn fmt(&self, f: &mut fmt::Formatter) -> fmt::Result {
+        struct Escape<'a, 'f>(&'a mut fmt::Formatter<'f>);
+
+        impl fmt::Write for Escape<'_, '_> {
+            fn write_str(&mut self, s: &str) -> fmt::Result {
+                for ch in s.chars() {
+                    match ch {
+                        '\\' => self.0.write_str("\\\\")?,
+                        '"' => self.0.write_str("\\\"")?,
+                        '\n' => self.0.write_str("\\n")?,
+                        ch => self.0.write_char(ch)?,
+                    }
+                }
+                Ok(())
+            }
+        }
+
+        write!(&mut Escape(f), "{}", self.0)
+    }
+}
+
 impl<'a> LabelValue<'a> {
     fn new(metric: Metric, target: &'a mut Target) -> Self {
         write!(
@@ -898,7 +923,7 @@ impl<'a> LabelValue<'a> {
             self.target.buf.push_str(", ");
         }
         write!(
-            &mut self.target.buf, "{name}=\"{value}\""
+            &mut self.target.buf, "{name}=\"{}\"", LabelEscape(value)
         ).expect("writing to string");
         self
     }
